@@ -451,7 +451,17 @@ class ParseBlockInductive(HintVC):
     posts = [("exit", p_exit)]
 
     def discharge(self, name, pc, cond, timeout, seed, pre, out):
-        # the loop obligations (invariant at entry / preserved) get a concrete window as witness as well
+        # the loop obligations (invariant at entry / preserved) get a concrete window as witness as well; a counterexample
+        # with two names already accumulated is preferred (it shows ordering mistakes when replayed)
+        if cond is not True and cond is not False:
+            from pyvc.smt import check_sat
+            rr = check_sat(list(pc) + [z3.Not(cond), self.R_n == 2], min(timeout, 4000), seed, use_cvc5=False)
+            if rr.status == "sat":
+                try:
+                    wit = self.concretize(rr.model, pre, out)
+                except Exception as ex:  # noqa
+                    wit = {"concretize_error": repr(ex)}
+                return Res(name, "refuted", rr.backend, rr.seconds, self.describe(out) + " (counterexample with two names accumulated)", self.kind, wit)
         return HintVC.discharge(self, name, pc, cond, timeout, seed, pre if pre is not None else "side", out)
 
     def hints(self):
@@ -465,6 +475,10 @@ class ParseBlockInductive(HintVC):
         pre_toks = []
         for i in range(k):
             pre_toks += [["variable_begin", "{{"], ["name", f"p{i}"], ["variable_end", "}}"]]
+        if out is None:
+            # a loop obligation: replay the one iteration, then close the block so that the accumulated result is returned
+            used = 1 if toks[0][0] == "data" else 3
+            toks = toks[:used] + [["block_begin", "{%"], ["name", "endtrans"]]
         return {"tokens": pre_toks + toks, "allow_pluralize": self.allow, "text_so_far": model_value(model, self.B.t), "names_so_far": k}
 
     def replay(self, w):
